@@ -226,7 +226,8 @@ func runC18(t *sim.T, tier string) *sim.Violation {
 				}
 			}
 		}
-		z := m.Feed.Zip(gen.DrawZipOpts(t, len(m.Feed.Tables)))
+		zo := gen.DrawZipOpts(t, len(m.Feed.Tables))
+		z := m.Feed.Zip(zo)
 		if !giant && t.Chance(1, 8) {
 			// a member that cannot be opened at all (unsupported method, encrypted flag, bad sizes): open-error paths
 			if nz, d := gen.ZipHeaderFault(t, z); nz != nil {
@@ -237,6 +238,14 @@ func runC18(t *sim.T, tier string) *sim.Violation {
 			}
 		}
 		stIn = append(stIn, z)
+		if !giant && t.Chance(1, 5) {
+			// a sibling archive in which one member has other content of the same length and CRC-32
+			if sib, d := gen.ForgeCRCSibling(t, m.Feed, zo); sib != nil {
+				t.Logf("shared archive %d is a sibling of archive %d: %s", len(stIn), i, d)
+				t.Probe("same-crc-sibling")
+				stIn = append(stIn, sib.Zip(zo))
+			}
+		}
 		if !giant && t.Chance(1, 4) {
 			// a sibling archive whose header row differs only in how its text splits into cells
 			sib := &gen.StaticModel{Feed: m.Feed.Clone(), Cfg: m.Cfg}
